@@ -6,6 +6,8 @@ ASSUMPTIONS = [
     "'usable' = fake(R) under the TapeRandom stub (4 int draws, 2 char draws, small default caps) returns "
     "without raising a value that R accepts",
     "any exception other than SubstitutionError escaping substitute() is a counterexample",
+    "values with ... placeholders (in lists, as dict values, as the ...: ... entry, bare) are included for the 'only "
+    "SubstitutionError / usable result' clauses; idempotence is claimed for plain values only, as the property says",
 ]
 
 POST = """
@@ -13,9 +15,10 @@ with gen_env((d0, d1, d2, d3), {chars}, (), small=True) as t:
     g = fake(R)
 if not ok_validate(R, g):
     return False, "generated value rejected by result"
-R2 = substitute(R, v)
-if not (R2 == R):
-    return False, "not idempotent"
+if PLAIN:      # idempotence is stated for plain values (no ... placeholders)
+    R2 = substitute(R, v)
+    if not (R2 == R):
+        return False, "not idempotent"
 return True, "subst"
 """
 
